@@ -61,8 +61,17 @@ class Prop(PropBase):
                     lines.append(tg.history(r, r.choice([2, 5, 12, 30]), graphic=r.random() < 0.7))
                 elif c < 0.75:
                     lines.append(sg.frames(r, r.choice([1, 2, 4])))
-                elif c < 0.88:
+                elif c < 0.83:
                     lines.append(input_script(r))
+                elif c < 0.88:
+                    # a canvas and a copy of it are separate objects: edits and resizes (through zero areas too) of the
+                    # one must not show in the other
+                    w_, h_ = r.randrange(1, 6), r.randrange(1, 5)
+                    e_ = lambda: tg.fmt_el(tg.element(r))
+                    ops = ["px %d %d %s" % (r.randrange(w_), r.randrange(h_), e_()) for _ in range(r.randrange(1, 5))]
+                    ops += [r.choice(["cp", "cc"]), r.choice(["rz 0 0", "rz 0 %d" % h_, "rz %d %d" % (w_ + 1, h_), "px 0 0 " + e_()]), "bdump",
+                            "rz %d %d" % (w_, h_), "px %d %d %s" % (r.randrange(w_), r.randrange(h_), e_()), "bdump", "dump", "ba", "dump"]
+                    lines.append("C %d %d ; %s" % (w_, h_, " ; ".join(ops)))
                 elif c < 0.9:
                     lines.append("D 1 %d" % r.randrange(256))
                 elif c < 0.95:
@@ -91,13 +100,19 @@ class Prop(PropBase):
                 sets.append([line] * k)
         return sets
 
+    @classmethod
+    def verdict_concerns(cls, v):
+        # a copy of a canvas that follows its original (judged by the canvas oracle at a `bdump`) is interference
+        # between two objects
+        return (" C12" in " " + v) or ("C16" in v and "(bdump)" in v)
+
     @staticmethod
     def cases(tier, rng):
         # every script also goes through the ordinary executor/driver tie (solo run vs model)
         out = []
         for s in Prop.object_sets(tier, rng):
             for l in s:
-                out.append(Case(l, tag="solo-" + l[0], oracle=False))
+                out.append(Case(l, tag="solo-" + l[0], oracle=(l[0] == "C")))
         return out
 
     @staticmethod
